@@ -1,14 +1,15 @@
 (* C14 — Bit and integer utilities equal their mathematical definition for all values.
    Property theorems only: each is closed by [exact] of lemmas proved in Proofs*.v, followed by
-   Print Assumptions.  Related functions are stated together as one conjunctive theorem (every
-   Print Assumptions costs ~1 s per run of ./check).
+   Print Assumptions.  Related functions are stated together as one conjunctive theorem, and the assumptions are
+   printed once for the tuple of all theorems at the end of the file (every Print Assumptions costs ~1 s per run
+   of ./check, which recompiles this file).
    [W w] = w is one of the widths 8/16/32/64; [WT t] = t is one of the eight integer types (such a
    width, signed or unsigned); [in_ty t x] = x is a value of t.  [Ok v] in a conclusion also says
    that the computation meets no undefined behaviour (no signed overflow, no bad shift, no division
    by zero), no contract failure and does not run out of fuel.  Model functions ([_m]) mirror the
    C++ code; spec functions ([_spec]) are the mathematical definitions of Spec.v. *)
 From Tetl Require Import Lib.Base C14.Spec C14.Model C14.Arith
-  C14.ProofsSat C14.ProofsCmp C14.ProofsMid C14.ProofsNum C14.ProofsGcd C14.ProofsRot C14.ProofsBit C14.ProofsCount C14.ProofsPop C14.ProofsSwap C14.SpecFacts C14.NonVac.
+  C14.ProofsSat C14.ProofsCmp C14.ProofsMid C14.ProofsNum C14.ProofsGcd C14.ProofsRot C14.ProofsBit C14.ProofsCount C14.ProofsPop C14.ProofsSwap C14.ProofsTpl C14.SpecFacts C14.NonVac.
 Local Open Scope Z_scope.
 
 (** saturation arithmetic: add_sat (builtin path and portable fallback), div_sat, saturate_cast for all 64
@@ -40,7 +41,6 @@ Proof.
     (conj (cmp_less_equal_ok tt tu t u H1 H2 H3 H4) (cmp_greater_equal_ok tt tu t u H1 H2 H3 H4))))))
     in_range_ok))).
 Qed.
-Print Assumptions C14_saturation_cmp.
 
 (** midpoint: a + (b - a) / 2 rounded towards a, for every pair of values incl. the limits with opposite signs;
     gcd, lcm for all 64 (M, N) pairs: the non-negative gcd / lcm of |m| and |n| whenever it is a value of the
@@ -63,7 +63,6 @@ Proof.
   exact (conj midpoint_ok (conj (fun tm tn m n H1 H2 H3 H4 => conj (gcd_ok tm tn m n H1 H2 H3 H4) (lcm_ok tm tn m n H1 H2 H3 H4))
               (fun t HT => conj (abs_ok t HT) (conj (idiv_ok t HT) (conj (ipow_ok t HT) (conj (ipow2_ok t HT) (ilog2_ok t HT))))))).
 Qed.
-Print Assumptions C14_numeric.
 
 (** rotl / rotr: every width, every value, EVERY count s (any integer, hence any int: negative, zero, multiples of
     the width, INT_MIN): the count is taken modulo the width, no shift is out of range; and the specification read
@@ -86,7 +85,34 @@ Theorem C14_rot_single_bit :
      set_bit_m w word pos = Contract /\ reset_bit_m w word pos = Contract /\ flip_bit_m w word pos = Contract
      /\ test_bit_m w word pos = Contract /\ (forall v, assign_bit_m w word pos v = Contract))).
 Proof. exact (conj rot_all single_bit_all). Qed.
-Print Assumptions C14_rot_single_bit.
+
+(** the compile-time-position overloads set_bit<Pos>(word), set_bit<Pos>(word, value), reset_bit<Pos>(word),
+    flip_bit<Pos>(word), test_bit<Pos>(word) ([Some r]: the instantiation compiles and returns r; [None]: it does not
+    compile, static_assert(Pos < digits)): every width, EVERY word, every Pos < digits: the wrapper is the run-time
+    function at position Pos (forwarding, no hypothesis on the word), hence - for a word of the type - the single-bit
+    update of Spec.v, for both values of [value] whether the bit was set or clear; every Pos >= digits is rejected at
+    compile time.  ipow<Base>(exponent) (both branches of its `if constexpr`): the exact power whenever representable *)
+Theorem C14_template_position :
+  (forall w, W w -> forall word Pos, 0 <= Pos ->
+  (Pos < w ->
+     (set_bit_tpl_m w Pos word = Some (set_bit_m w word Pos)
+      /\ (forall v, assign_bit_tpl_m w Pos word v = Some (assign_bit_m w word Pos v))
+      /\ reset_bit_tpl_m w Pos word = Some (reset_bit_m w word Pos)
+      /\ flip_bit_tpl_m w Pos word = Some (flip_bit_m w word Pos)
+      /\ test_bit_tpl_m w Pos word = Some (test_bit_m w word Pos))
+     /\ (0 <= word < 2 ^ w ->
+         set_bit_tpl_m w Pos word = Some (Ok (set_bit_spec word Pos))
+         /\ (forall v, assign_bit_tpl_m w Pos word v = Some (Ok (assign_bit_spec word Pos v)))
+         /\ reset_bit_tpl_m w Pos word = Some (Ok (reset_bit_spec word Pos))
+         /\ flip_bit_tpl_m w Pos word = Some (Ok (flip_bit_spec word Pos))
+         /\ test_bit_tpl_m w Pos word = Some (Ok (test_bit_spec word Pos))))
+  /\ (w <= Pos ->
+      set_bit_tpl_m w Pos word = None /\ (forall v, assign_bit_tpl_m w Pos word v = None)
+      /\ reset_bit_tpl_m w Pos word = None /\ flip_bit_tpl_m w Pos word = None /\ test_bit_tpl_m w Pos word = None))
+  /\
+  (forall t, WT t -> forall b e, in_ty t b = true -> in_ty t e = true -> 0 <= e -> in_ty t (b ^ e) = true ->
+     ipow_base_m t b e = Ok (ipow_spec b e)).
+Proof. exact (conj tpl_all ipow_base_ok). Qed.
 
 (** popcount (run-time builtin by its documented meaning; the portable "val &= val - 1" loop by induction),
     has_single_bit, countl_zero/one (shift-left loops), countr_zero/one (test_bit loops), bit_width, bit_floor
@@ -101,7 +127,6 @@ Theorem C14_counts : forall w, W w -> forall x, 0 <= x < 2 ^ w ->
    /\ (bit_ceil_dom w x = true -> bit_ceil_m w x = Ok (bit_ceil_spec x))
    /\ (bit_ceil_dom w x = false -> bit_ceil_m w x = UB BadShift)).
 Proof. exact (fun w HW x Hx => conj (pop_all w HW x Hx) (count_all w HW x Hx)). Qed.
-Print Assumptions C14_counts.
 
 (** byteswap for the eight types (run-time path: __builtin_bswapN by its documented meaning), the portable
     shift-and-mask fallbacks for 16/32/64 bits, and hton/ntoh for 8/16/32 bits: the bytes in reverse order *)
@@ -112,7 +137,6 @@ Theorem C14_byteswap :
   /\ (forall w v, w = 8 \/ w = 16 \/ w = 32 -> 0 <= v < 2 ^ w ->
         hton_m w v = Ok (hton_spec w v) /\ ntoh_m w v = Ok (hton_spec w v)).
 Proof. exact swap_all. Qed.
-Print Assumptions C14_byteswap.
 
 (** (1) what the model does OUTSIDE the documented domain, exactly - so that "no result depends on overflow" is seen
     to hold precisely on the documented domain: abs(min) and idiv(min, -1) are computed in int for signed char /
@@ -146,7 +170,10 @@ Theorem C14_domain_and_spec :
   /\ (forall w x k, 0 <= k < w -> 0 <= x -> Z.testbit x k = true -> (forall j, 0 <= j < k -> Z.testbit x j = false) ->
         countr_zero_spec w x = k /\ x mod 2 ^ k = 0)).
 Proof. exact (conj outside_domain spec_facts). Qed.
-Print Assumptions C14_domain_and_spec.
+
+(** assumptions of every theorem above, asked once: the tuple depends on exactly the union of their assumptions *)
+Definition C14_all_theorems := (C14_saturation_cmp, C14_numeric, C14_rot_single_bit, C14_template_position, C14_counts, C14_byteswap, C14_domain_and_spec).
+Print Assumptions C14_all_theorems.
 
 (** the hypotheses above are satisfiable at the corners the property is about *)
 Example C14_nonvacuous :
@@ -176,3 +203,13 @@ Example C14_nonvacuous_bits :
   /\ byteswap_fallback_m 64 72623859790382856 = Ok 578437695752307201
   /\ hton_m 32 305419896 = Ok 2018915346.
 Proof. exact (conj W_all nonvac_bits). Qed.
+
+Example C14_nonvacuous_template_position :
+  set_bit_tpl_m 8 0 1 = Some (Ok 1) /\ assign_bit_tpl_m 8 0 1 false = Some (Ok 0)
+  /\ assign_bit_tpl_m 64 63 9223372036854775808 false = Some (Ok 0)
+  /\ assign_bit_tpl_m 64 63 0 true = Some (Ok 9223372036854775808)
+  /\ reset_bit_tpl_m 16 15 65535 = Some (Ok 32767) /\ flip_bit_tpl_m 32 31 0 = Some (Ok 2147483648)
+  /\ test_bit_tpl_m 8 7 128 = Some (Ok true) /\ test_bit_tpl_m 8 8 128 = None
+  /\ ipow_base_m i32 3 4 = Ok 81 /\ ipow_base_m i64 2 62 = Ok 4611686018427387904.
+Proof. exact nonvac_tpl. Qed.
+
